@@ -10,7 +10,7 @@ from lib.core import cz, czl
 from harness import common
 from harness.C18 import q
 
-THEOREMS = ['C14_never_early', 'C14_expire_or_answer_once', 'C14_plain_expiry_reports_message', 'C14_every_call_sweeps_everything', 'C14_sweep_leaves_nothing_overdue', 'C14_invariant_reachable', 'C14_response_before_put_refuted', 'C14_nonvacuous']
+THEOREMS = ['C14_never_early', 'C14_expire_or_answer_once', 'C14_plain_expiry_reports_message', 'C14_every_call_sweeps_everything', 'C14_sweep_leaves_nothing_overdue', 'C14_invariant_reachable', 'C14_put_visible_at_once', 'C14_response_before_put_refuted', 'C14_nonvacuous']
 IMPORTS = ['AV.Model.Base', 'AV.Model.PyDict', 'AV.Model.Limiter', 'AV.Model.Correlator', 'Coq.QArith.QArith']
 
 
@@ -90,7 +90,7 @@ async def run_real(script, ttl):
                     info['exceptions'].append(type(t.exception()).__name__)
                 elif tid in puts:
                     m = puts.pop(tid)
-                    info['stored_at'][m._uid] = Fraction(now2)
+                    info['stored_at'].setdefault(m._uid, Fraction(now2))
 
         for e in script:
             if e[0] == 'B':
@@ -106,12 +106,17 @@ async def run_real(script, ttl):
                     info['sar'][uid] = sar
                     puts[tid] = m
                     tasks[tid] = loop.create_task(c.put(m))
+                    begun_put = m
                 else:
                     rk, seq, status = payload
                     tasks[tid] = loop.create_task(c.get(mk_resp(rk, seq, status)))
                     gets.append(tasks[tid])
                 await settle()
                 executed.append(e)
+                if what == 'put':
+                    ent = c._store._data.get(str(begun_put.sequence_num))
+                    if ent is not None and ent[1] is begun_put:
+                        info['stored_at'].setdefault(begun_put._uid, Fraction(ent[0]))
                 after_slice(tid, now2)
             else:
                 _r, tid, now2 = e
@@ -279,6 +284,103 @@ async def backpressure_scenario(pause):
         cm.time = old
 
 
+async def sweep_hook_scenario(yield_in_hook):
+    """(d) again: correlator.put() for the request just written runs the expiry sweep, which awaits the application's
+    send_error hook for an older request; the response to the new request is processed while that hook is suspended"""
+    import aiosmpplib.correlator as cm
+    from aiosmpplib.protocol import SubmitSm, SubmitSmResp, EnquireLink, SmppMessage
+    from aiosmpplib.state import PhoneNumber
+    from harness import sess
+    clock = {'t': 100.0}
+
+    class FT:
+        @staticmethod
+        def monotonic():
+            return clock['t']
+    old = cm.time
+    cm.time = FT
+    try:
+        loop = asyncio.get_running_loop()
+        esme, hook = sess.make_esme()
+        _r, writer, tr, _p = sess.make_stream(loop)
+        esme._writer = writer
+        esme._bound.set()
+        esme._session_state = esme.bind_mode.session_state
+        gate = loop.create_future()
+        if yield_in_hook:
+            hook.error_gate = lambda m, e: gate
+        a = SubmitSm(short_message='old', source=PhoneNumber('1'), destination=PhoneNumber('2'), log_id='LOGA')
+        await esme._send_data(a)
+        clock['t'] = 100.0 + esme.correlator.max_ttl_response + 1.0          # A is overdue now
+        b = SubmitSm(short_message='new', source=PhoneNumber('1'), destination=PhoneNumber('2'), log_id='LOGB')
+        t = loop.create_task(esme._send_data(b))
+        await sess.settle()
+        pdu = SubmitSmResp(sequence_num=b.sequence_num, message_id='idB').pdu()
+        clock['t'] += 0.5
+        res = await esme._handle_response(pdu, SmppMessage.parse_header(pdu))
+        if not gate.done():
+            gate.set_result(None)
+        await sess.settle()
+        await t
+        clock['t'] += 100.0
+        hook.error_gate = None
+        await esme.correlator.put(EnquireLink(sequence_num=999999))
+        to_a = [e for e in hook.log if e[0] == 'send_error' and getattr(e[1], 'log_id', '') == 'LOGA']
+        to_b = [e for e in hook.log if e[0] == 'send_error' and getattr(e[1], 'log_id', '') == 'LOGB']
+        return getattr(res, 'log_id', ''), len(to_a), len(to_b)
+    finally:
+        cm.time = old
+
+
+async def slow_hook_scenario(hook_time, probe_after):
+    """(a) at the session level: the time-to-live counts from the moment the request was SENT; the sending hook of the
+    application may take any time before the PDU is written.  Returns (seconds between the write and the time-out report
+    or None, ttl)."""
+    import aiosmpplib.correlator as cm
+    from aiosmpplib.protocol import SubmitSm, EnquireLink
+    from aiosmpplib.state import PhoneNumber
+    from harness import sess
+    clock = {'t': 100.0}
+
+    class FT:
+        @staticmethod
+        def monotonic():
+            return clock['t']
+    old = cm.time
+    cm.time = FT
+    try:
+        loop = asyncio.get_running_loop()
+        esme, hook = sess.make_esme()
+        _r, writer, tr, _p = sess.make_stream(loop)
+        esme._writer = writer
+        esme._bound.set()
+        esme._session_state = esme.bind_mode.session_state
+        ttl = esme.correlator.max_ttl_response
+        gate = loop.create_future()
+        hook.sending_gate = lambda m, pdu: gate
+        wrote = {}
+        ow = tr.write
+
+        def write(data):
+            wrote.setdefault('t', clock['t'])
+            return ow(data)
+        tr.write = write
+        msg = SubmitSm(short_message='hi', source=PhoneNumber('1'), destination=PhoneNumber('2'), log_id='LOGS')
+        t = loop.create_task(esme._send_data(msg))
+        await sess.settle()
+        clock['t'] += hook_time
+        gate.set_result(None)
+        await sess.settle()
+        await t
+        hook.sending_gate = None
+        clock['t'] = wrote['t'] + probe_after
+        await esme.correlator.put(EnquireLink(sequence_num=999999))
+        rep = [e for e in hook.log if e[0] == 'send_error' and getattr(e[1], 'log_id', '') == 'LOGS']
+        return (clock['t'] - wrote['t'] if rep else None), ttl
+    finally:
+        cm.time = old
+
+
 def run(ctx):
     ctx.rule = ('seeded scripts of put/get calls by three concurrent tasks on the real SimpleCorrelator with a send_error hook that suspends '
                 '(scripted clock; TTL boundaries ttl/2, ttl+1/1024), plain/segmented SubmitSm, enquire_link, responses ok/error/nack/unknown, '
@@ -329,6 +431,26 @@ def run(ctx):
             ctx.violation(f'a submit_sm answered 1 s after it was written was not matched (log_id {lid!r}) and was reported as timed out {nto} time(s)'
                           + (' while the transport was paused between write and correlator.put' if pause else ''),
                           {'finding_key': 'response-before-put-under-backpressure' if pause else None, 'function': 'backpressure', 'pause_writing': pause})
+    for hook_time in (0.0, 2.5, 14.0, 40.0):
+        for frac in (0.5, 0.95, 1.05):
+            ttl0 = 15.0
+            after, ttl = asyncio.run(slow_hook_scenario(hook_time, frac * ttl0))
+            ctx.traces += 1
+            ctx.case(('slow_hook', hook_time, frac))
+            rp = {'function': 'slow_hook', 'sending_hook_seconds': hook_time, 'probe_after_write_seconds': frac * ttl0}
+            if after is not None and not after > ttl:
+                ctx.violation(f'a submit_sm was reported as timed out {after} s after it was written (ttl {ttl} s); its sending hook had taken {hook_time} s', rp)
+            if after is None and frac * ttl0 > ttl:
+                ctx.violation(f'an unanswered submit_sm was not reported by the first request sent {frac * ttl0} s after it was written (ttl {ttl} s)', rp)
+    for y in (False, True):
+        lid, na, nb = asyncio.run(sweep_hook_scenario(y))
+        ctx.traces += 1
+        ctx.case(('sweep_hook', y))
+        if lid != 'LOGB' or nb or na != 1:
+            ctx.violation(f'a submit_sm answered 0.5 s after it was written was not matched (log_id {lid!r}) and was reported as timed out {nb} time(s); '
+                          f'the older unanswered request was reported {na} time(s)'
+                          + (' - the send_error hook for the older request was suspended inside correlator.put() of the new one' if y else ''),
+                          {'function': 'sweep_hook', 'yield_in_hook': y})
     if proved or not getattr(ctx, 'build_failing', None):
         bad, errs = core.run_cases('C14', 'corr', IMPORTS, 'fun p : Q * list mevent => ser_mrun_obs (fst p) (snd p)', cases, shard=60,
                                    preamble='Open Scope Q_scope.\nOpen Scope Z_scope.')
@@ -344,5 +466,40 @@ def run(ctx):
 
 
 def replay(ctx, path):
-    print('replay: re-run ./check C14 with the recorded VERIF_SEED')
+    import json
+    rp = json.load(open(path))
+    fn = rp.get('function')
+    if fn == 'backpressure':
+        lid, nto = asyncio.run(backpressure_scenario(rp['pause_writing']))
+        print(f'replay: response matched with log_id {lid!r}; the answered message was reported as timed out {nto} time(s)')
+        return 1 if lid != 'LOG1' or nto else 0
+    if fn == 'sweep_hook':
+        lid, na, nb = asyncio.run(sweep_hook_scenario(rp['yield_in_hook']))
+        print(f'replay: response matched with log_id {lid!r}; answered message reported as timed out {nb} time(s); older request reported {na} time(s)')
+        return 1 if lid != 'LOGB' or nb or na != 1 else 0
+    if fn == 'slow_hook':
+        after, ttl = asyncio.run(slow_hook_scenario(rp['sending_hook_seconds'], rp['probe_after_write_seconds']))
+        print(f'replay: time-out reported {after} s after the write (ttl {ttl} s)')
+        return 1 if (after is not None and not after > ttl) or (after is None and rp['probe_after_write_seconds'] > ttl) else 0
+    if fn == 'script':
+        ttl = Fraction(rp['ttl'])
+
+        def conv(x):
+            try:
+                return Fraction(x)
+            except (ValueError, TypeError):
+                return x
+        import ast
+        script = []
+        for e in rp['script']:
+            if e[0] == 'B':
+                script.append(('B', int(e[1]), e[2], ast.literal_eval(e[3]), Fraction(e[4]), Fraction(e[5])))
+            else:
+                script.append(('R', int(e[1]), Fraction(e[2])))
+        obs, hooklog, executed, info = asyncio.run(run_real(script, ttl))
+        msg = oracle(ttl, hooklog, executed, info)
+        print('replay: hook calls', [(h[0], h[1], float(h[2])) for h in hooklog])
+        print('replay: oracle says:', msg or 'property holds on this history (never-early / at-most-once part)')
+        return 1 if msg else 0
+    print('replay:', json.dumps(rp)[:1500])
     return 0
